@@ -1,4 +1,5 @@
 import Poulpy.Lemmas.Lut
+import Poulpy.Lemmas.LutBlind
 /-
 C14 — blind rotation evaluates the lookup table at the encrypted index.
 
@@ -402,9 +403,203 @@ theorem blind_ext_instances :
       some (blindExt 2 4 5 1 1 [[[1], [2]], [[3], [4]], [[5], [6]], [[7], [-8]]] [3, a] [1]) =
         (lutRotate 2 (3 + a) [[[1], [2]], [[3], [4]], [[5], [6]], [[7], [-8]]])[0]?) := by decide
 
-/- FULL STATEMENT (not proved): for every binary block key and every mod-switched ciphertext
-`blindExt n ext … data (b :: a) s = (lutRotate n (b + Σ a_i s_i) data)[0]` (for digits strictly inside the
-balanced range, so that re-normalisation is the identity).  The plaintext-level model is tied to the real
-loop bit for bit on the decrypted limbs, and the decrypted limbs to the clear rotation. -/
+/- The general statement is `blind_ext_rotates` / `blind_ext_eval` below. -/
+
+/-! ### The accumulator loops compute the rotation by the mod-switched phase -/
+
+/-- **Extended block-binary loop (`execute_block_binary_extended`), general theorem.**  For every extension
+factor `ext ≥ 1` (`ext = 2^e` in the code), every block size, every number of LWE coefficients, any
+mod-switched ciphertext `b₀ :: a` with entries in `[-2N·ext, 2N·ext]` (both rotation directions: the sign
+convention lives in `mod_switch_2n`), and a binary block key (each block of `chunks_exact(block)` has all key
+bits 0 or exactly one key bit 1), given the external-product contract built into the plaintext-level model
+(`acc ⊡ BRK_i = s_i·acc`): the `ext` accumulators stay well-shaped and their interleaving — the degree-`N·ext`
+polynomial they stand for — is `Y^{b₀ + Σ a_i s_i}` times the interleaved table.  (Accumulator digits strictly
+inside the balanced range, so that the per-block re-normalisation is the identity.) -/
+theorem blind_ext_rotates (n ext b size block q : Nat) (hn : 0 < n) (hext : 0 < ext) (hb : 1 ≤ b) (hb2 : b ≤ 63)
+    (hblock : 0 < block) (data : List (List Vec)) (hdata : AccOK n ext size b data)
+    (hd2 : 2 * ((n * ext : Nat) : Int) < 2 ^ 62) (b0 : Int) (a sk : List Int)
+    (hb0 : -(2 * ((n * ext : Nat) : Int)) ≤ b0 ∧ b0 ≤ 2 * ((n * ext : Nat) : Int))
+    (ha : ∀ p ∈ List.zip a sk, -(2 * ((n * ext : Nat) : Int)) ≤ p.1 ∧ p.1 ≤ 2 * ((n * ext : Nat) : Int))
+    (hq : (List.zip a sk).length = block * q)
+    (hkey : ∀ blk ∈ chunksExact block (List.zip a sk).length (List.zip a sk), BinBlock blk) :
+    AccOK n ext size b (blindExtAcc n ext b size block data (b0 :: a) sk) ∧
+    interleave n (blindExtAcc n ext b size block data (b0 :: a) sk) =
+      rotate (b0 + blkPhase (List.zip a sk)) (interleave n data) := by
+  have hf := accOK_facts n ext size b hb2 data hdata
+  have hl := hdata.1
+  have hI : InRange (interleave n data) := interleave_inRange n data hf.2
+  have hflat := chunksExact_flatten block hblock q (List.zip a sk) _ hq (Nat.le_refl _)
+  unfold blindExtAcc
+  simp only
+  rw [extInit_eq n ext hn data hl hext b0 hd2 hb0.1 hb0.2]
+  have h0ok := lutRotate_accOK n ext size b hb2 data hdata hext b0
+  have h0int : interleave n (lutRotate n b0 data) = rotate b0 (interleave n data) :=
+    lutRotate_interleave n b0 data (by omega) hn hf.1 hf.2 (by rw [hl]; exact hd2) (by rw [hl]; exact hb0.1)
+      (by rw [hl]; omega)
+  have := fold_blocks n ext size b hn hext hb hb2 hd2 (interleave n data) hI _ _ b0 h0ok h0int
+    (fun blk hblk => ⟨hkey blk hblk, fun p hp => ha p (by
+      rw [← hflat]; exact List.mem_flatten.2 ⟨blk, hblk, hp⟩)⟩)
+  rw [sum_flatten_phase, hflat] at this
+  exact this
+
+/-- N = 2, ext = 2, block = 2, n_lwe = 4, key `(0,1 | 0,0)`: phase `1 + (−3)`; the former skip case `a = −3 ≡ 5` -/
+example : interleave 2 (blindExtAcc 2 2 5 1 2 [[[1], [2]], [[3], [4]]] [1, 7, -3, 2, 6] [0, 1, 0, 0]) =
+    rotate (1 + (-3)) (interleave 2 [[[1], [2]], [[3], [4]]]) := by decide
+
+set_option maxHeartbeats 400000 in
+/-- **Extended blind rotation evaluates the table.**  With the table produced by `lookup_table_set`
+(`ext > 1` a power of two, table length `≤ N` dividing `N·ext`, entries whose scaled digits lie strictly inside
+the balanced range): polynomial 0 of the loop's result (`res ← acc[0]`) has constant coefficient
+`± enc(f[⌊u/step⌋]·scale)`, `u = (drift − (b₀ + Σ a_i s_i)) mod 2·N·ext`, minus exactly when `u ≥ N·ext` — the
+statement of `lut_eval_ext` with the clear rotation replaced by the phase of the mod-switched ciphertext. -/
+theorem blind_ext_eval (n ext b kLut k step block q : Nat) (f : List Int) (hpow : isPow2 ext = true) (hext : 1 < ext) (hn : 0 < n)
+    (hn2 : 2 * ((n * ext : Nat) : Int) < 2 ^ 62) (hb : 1 ≤ b) (hb2 : b ≤ 63) (hlen : 1 ≤ f.length) (hfn : f.length ≤ n)
+    (hdiv : n * ext = f.length * step)
+    (hbits : maxBitSize f + k % b < 64) (hl1 : 1 ≤ (k + b - 1) / b) (hl2 : (k + b - 1) / b ≤ (kLut + b - 1) / b)
+    (hsym : SymP b (tableF b ((kLut + b - 1) / b) ((k + b - 1) / b) step (if k % b ≠ 0 then 2 ^ (b - k % b) else 1) f))
+    (hblock : 0 < block) (b0 : Int) (a sk : List Int)
+    (hb0 : -(2 * ((n * ext : Nat) : Int)) ≤ b0 ∧ b0 ≤ 2 * ((n * ext : Nat) : Int))
+    (ha : ∀ p ∈ List.zip a sk, -(2 * ((n * ext : Nat) : Int)) ≤ p.1 ∧ p.1 ≤ 2 * ((n * ext : Nat) : Int))
+    (hq : (List.zip a sk).length = block * q)
+    (hkey : ∀ blk ∈ chunksExact block (List.zip a sk).length (List.zip a sk), BinBlock blk) :
+    ∃ T, lutSet n ext b kLut f k = .ok T ∧
+      (blindExt n ext b ((kLut + b - 1) / b) block T.data (b0 :: a) sk)[0]? =
+        (let u := ((((step / 2 : Nat) : Int) - (b0 + blkPhase (List.zip a sk))) % (2 * ((n * ext : Nat) : Int))).toNat
+         (f[(u % (n * ext)) / step]?).map fun fi =>
+           let v := enc b ((kLut + b - 1) / b) ((k + b - 1) / b) (w64 (fi * (if k % b ≠ 0 then 2 ^ (b - k % b) else 1)))
+           if u < n * ext then v else negV v) := by
+  obtain ⟨T, hT, _, hok, hint⟩ := lutSet_extN_facts n ext b kLut k step f hpow hext hn hn2 hb hb2 hlen hfn hdiv hbits hl1 hl2 hsym
+  refine ⟨T, hT, ?_⟩
+  have hstep : 0 < step := by
+    rcases Nat.eq_zero_or_pos step with h | h
+    · subst h; have : 0 < n * ext := Nat.mul_pos hn (by omega); omega
+    · exact h
+  obtain ⟨hAok, hAint⟩ := blind_ext_rotates n ext b _ block q hn (by omega) hb hb2 hblock T.data hok hn2 b0 a sk hb0 ha hq hkey
+  set A := blindExtAcc n ext b ((kLut + b - 1) / b) block T.data (b0 :: a) sk with hA
+  have hAl : 0 < A.length := by rw [hAok.1]; omega
+  have hp0 : (A[0]'hAl).length = n := (hAok.2 _ (List.getElem_mem hAl)).1.1
+  have hget := interleave_get n A 0 0 hn hAl
+  simp only [Nat.zero_mul, Nat.add_zero, List.getElem?_eq_getElem hAl, Option.getD_some] at hget
+  unfold blindExt
+  rw [← hA, List.getD_eq_getElem?_getD, List.getElem?_eq_getElem hAl, Option.getD_some]
+  rw [List.getElem?_eq_getElem (show 0 < (A[0]'hAl).length by omega)] at hget ⊢
+  simp only [Option.getD_some] at hget
+  rw [← hget, hAint, hint]
+  set F' := tableF b ((kLut + b - 1) / b) ((k + b - 1) / b) step (if k % b ≠ 0 then 2 ^ (b - k % b) else 1) f with hF'
+  have hF'len : F'.length = n * ext := by rw [tableF_length, hdiv]
+  have hF'r : InRange F' := symP_inRange b hb2 F' hsym
+  rw [coeff0_rotate_rotate F' hF'r (n * ext) hF'len (Nat.mul_pos hn (by omega))]
+  have := sext_tableF b ((kLut + b - 1) / b) ((k + b - 1) / b) step (if k % b ≠ 0 then 2 ^ (b - k % b) else 1) f hstep hlen
+    (((step / 2 : Nat) : Int) - (b0 + blkPhase (List.zip a sk)))
+  rw [this]
+  simp only [← hdiv]
+
+/-- **Block-binary loop (`execute_block_binary`, `ext = 1`) and the plain CGGI loop (`execute_standard`, the
+instance `block = 1`).**  For every block size, every `n_lwe = block·q`, every mod-switched ciphertext and every
+binary block key: the accumulator is `X^{b₀ + Σ a_i s_i}·LUT` — no range condition on the `a_i` (the ring
+rotation is total). -/
+theorem blind_plain_rotates {n size : Nat} (b block q : Nat) (hb : 1 ≤ b) (hb2 : b ≤ 63) (hblock : 0 < block)
+    (lut0 : List Vec) (hsh : Shaped n size lut0) (hsym : SymP b lut0) (b0 : Int) (a sk : List Int)
+    (hq : (List.zip a sk).length = block * q)
+    (hkey : ∀ blk ∈ chunksExact block (List.zip a sk).length (List.zip a sk), BinBlock blk) :
+    blindPlain b block lut0 (b0 :: a) sk = rotate (b0 + blkPhase (List.zip a sk)) lut0 :=
+  blindPlain_rotates b block q hb hb2 hblock lut0 hsh hsym b0 a sk hq hkey
+
+/-- plain CGGI (`block = 1`): every key in `{0,1}^n` is a block key with blocks of one coefficient -/
+theorem blind_standard_rotates {n size : Nat} (b : Nat) (hb : 1 ≤ b) (hb2 : b ≤ 63) (lut0 : List Vec) (hsh : Shaped n size lut0)
+    (hsym : SymP b lut0) (b0 : Int) (a sk : List Int) (hbin : ∀ s ∈ sk, s = 0 ∨ s = 1) :
+    blindPlain b 1 lut0 (b0 :: a) sk = rotate (b0 + blkPhase (List.zip a sk)) lut0 := by
+  apply blind_plain_rotates b 1 (List.zip a sk).length hb hb2 (by decide) lut0 hsh hsym b0 a sk (by simp)
+  -- every chunk of size 1 is a single pair
+  have hsingle : ∀ (fuel : Nat) (l : List (Int × Int)), (∀ p ∈ l, p.2 = 0 ∨ p.2 = 1) → ∀ blk ∈ chunksExact 1 fuel l, BinBlock blk := by
+    intro fuel
+    induction fuel with
+    | zero => intro l _ blk h; simp [chunksExact] at h
+    | succ f ih =>
+      intro l hl blk h
+      unfold chunksExact at h
+      split at h
+      · simp at h
+      · rcases List.mem_cons.1 h with h | h
+        · subst h
+          cases l with
+          | nil => simp at *
+          | cons p t =>
+            simp only [List.take_succ_cons, List.take_zero]
+            rcases hl p List.mem_cons_self with h0 | h1
+            · left; intro x hx; simp at hx; subst hx; exact h0
+            · right; exact ⟨[], p.1, [], by simp [← h1], by simp, by simp⟩
+        · exact ih _ (fun p hp => hl p (List.mem_of_mem_drop hp)) blk h
+  apply hsingle
+  intro p hp
+  exact hbin p.2 (List.of_mem_zip hp).2
+
+example : blindPlain 5 2 [[1], [2], [3], [4]] [1, 3, 5, -2, 7] [0, 1, 0, 0] = rotate (1 + 5) [[1], [2], [3], [4]] := by decide
+example : blindPlain 5 1 [[1], [2], [3], [4]] [1, 3, 5, -2] [1, 0, 1] = rotate (1 + 3 + -2) [[1], [2], [3], [4]] := by decide
+
+/-- **Single-polynomial blind rotation evaluates the table** (`ext = 1`, standard and block-binary): constant
+coefficient `± enc(f[⌊u/step⌋]·scale)`, `u = (drift − (b₀ + Σ a_i s_i)) mod 2N`, minus exactly when `u ≥ N`. -/
+theorem blind_plain_eval (n b kLut k step block q : Nat) (f : List Int) (hn : 0 < n) (hn2 : 2 * (n : Int) < 2 ^ 62) (hb : 1 ≤ b)
+    (hb2 : b ≤ 63) (hlen : 1 ≤ f.length) (hdiv : n = f.length * step)
+    (hbits : maxBitSize f + k % b < 64) (hl1 : 1 ≤ (k + b - 1) / b) (hl2 : (k + b - 1) / b ≤ (kLut + b - 1) / b)
+    (hsym : SymP b (tableF b ((kLut + b - 1) / b) ((k + b - 1) / b) step (if k % b ≠ 0 then 2 ^ (b - k % b) else 1) f))
+    (hblock : 0 < block) (b0 : Int) (a sk : List Int) (hq : (List.zip a sk).length = block * q)
+    (hkey : ∀ blk ∈ chunksExact block (List.zip a sk).length (List.zip a sk), BinBlock blk) :
+    ∃ T p0, lutSet n 1 b kLut f k = .ok T ∧ T.data = [p0] ∧
+      (blindPlain b block p0 (b0 :: a) sk)[0]? =
+        (let u := ((((step / 2 : Nat) : Int) - (b0 + blkPhase (List.zip a sk))) % (2 * (n : Int))).toNat
+         (f[(u % n) / step]?).map fun fi =>
+           let v := enc b ((kLut + b - 1) / b) ((k + b - 1) / b) (w64 (fi * (if k % b ≠ 0 then 2 ^ (b - k % b) else 1)))
+           if u < n then v else negV v) := by
+  have hset := lutSet_ext1 n b kLut k step f hn hn2 hb hlen hdiv hbits hl1 hl2
+  have hstep : 0 < step := by
+    rcases Nat.eq_zero_or_pos step with h | h
+    · subst h; omega
+    · exact h
+  set F' := tableF b ((kLut + b - 1) / b) ((k + b - 1) / b) step (if k % b ≠ 0 then 2 ^ (b - k % b) else 1) f with hF'
+  have hF'len : F'.length = n := by rw [tableF_length, hdiv]
+  have hF'r : InRange F' := symP_inRange b hb2 F' hsym
+  have hF'sh : Shaped n ((kLut + b - 1) / b) F' := ⟨hF'len, tableF_vec_length _ _ _ _ _ _⟩
+  refine ⟨_, rotate (-((step / 2 : Nat) : Int)) F', hset, rfl, ?_⟩
+  rw [blind_plain_rotates b block q hb hb2 hblock _ (rotate_shaped _ _ hF'sh) (rotate_sym b hb2 _ _ hsym) b0 a sk hq hkey]
+  rw [coeff0_rotate_rotate F' hF'r n hF'len hn]
+  have := sext_tableF b ((kLut + b - 1) / b) ((k + b - 1) / b) step (if k % b ≠ 0 then 2 ^ (b - k % b) else 1) f hstep hlen
+    (((step / 2 : Nat) : Int) - (b0 + blkPhase (List.zip a sk)))
+  rw [this]
+  simp only [← hdiv]
+
+/-- **mod_switch_2n ∘ LWE phase: the exact error of the rotation index.**  Radix above the index width
+(`d = base2k − log2(n) ≥ 1`, the branch of `mod_switch_2n_top`): with `x₀ :: xs` the sign-applied top-limb digits
+of `(b, a_1, …)`, every coefficient is switched to `⌊(x + 2^{d-1})/2^d⌋` and, for any key `s`, the index used by
+the blind rotation satisfies
+
+    idx · 2^d = Φ + E,   Φ = x₀ + Σ x_i s_i  (the top-limb phase),   E = (2^{d-1} − r₀) + Σ (2^{d-1} − r_i)·s_i,
+
+`r = (x + 2^{d-1}) mod 2^d` the per-coefficient rounding remainder; for a binary key `|E| ≤ (1 + Σ s_i)·2^{d-1}`,
+i.e. `idx = Φ·n/2^{base2k}` up to `±(hw(s) + 1)/2` — the documented rounding drift, with its exact value. -/
+theorem index_error (d : Nat) (hd : 1 ≤ d) (x0 : Int) (xs sk : List Int) (hbin : ∀ s ∈ sk, s = 0 ∨ s = 1) :
+    (msRound d x0 + blkPhase (List.zip (xs.map (msRound d)) sk)) * 2 ^ d =
+      (x0 + blkPhase (List.zip xs sk)) +
+        ((2 ^ (d - 1) - msRem d x0) + blkPhase (List.zip (xs.map fun x => 2 ^ (d - 1) - msRem d x) sk)) ∧
+    ((2 ^ (d - 1) - msRem d x0) + blkPhase (List.zip (xs.map fun x => 2 ^ (d - 1) - msRem d x) sk)).natAbs
+      ≤ (1 + sk.sum.natAbs) * 2 ^ (d - 1) := by
+  have h1 := phase_error_sum d xs sk
+  have h2 := msRound_mul d x0
+  have h3 := phase_error_bound d hd xs sk hbin
+  have h4 := msErr_bound d hd x0
+  refine ⟨by linear_combination h2 + h1, ?_⟩
+  generalize blkPhase (List.zip (xs.map fun x => 2 ^ (d - 1) - msRem d x) sk) = E at *
+  generalize (2:Int) ^ (d - 1) - msRem d x0 = e at *
+  have ha : (e + E).natAbs ≤ e.natAbs + E.natAbs := Int.natAbs_add_le e E
+  have he : e.natAbs ≤ 2 ^ (d - 1) := by
+    zify; rw [abs_le]; constructor <;> omega
+  rw [Nat.add_mul, Nat.one_mul]
+  omega
+
+/-- the switched values of the model are `msRound` of the sign-applied digits (`mod_switch_2n_top`) -/
+example : modSwitch2n 64 12 [[1000, -2048, 37]] false = .ok ([1000, -2048, 37].map (msRound 6)) := by rfl
+
+/-- d = 6, digits (1000 | −2048, 37), key (1, 1): idx = 16 − 32 + 1 = −15, Φ = −1011, E = 51 -/
+example : (msRound 6 1000 + blkPhase (List.zip ([-2048, 37].map (msRound 6)) [1, 1])) * 2 ^ 6 = (1000 + (-2048 + 37)) + 51 := by decide
 
 end C14
